@@ -220,6 +220,43 @@ def applyCall (refresh : Bool) (cfg : ErrCfg) (on : Bool) (w : Wrapper) : Call â
 def history (refresh : Bool) (cfg : ErrCfg) (on : Bool) (w : Wrapper) (cs : List Call) : Wrapper :=
   cs.foldl (fun w c => (applyCall refresh cfg on w c).w) w
 
+/-! ### the engine's input-stream stack (`PHRQ_io::istream_list`)
+
+`do_run` pushes the caller's stream (`push_istream(pis, false)`: not owned), `PHRQ_io::get_line` pushes an owned `std::ifstream` for every
+INCLUDE$ directive and pops a stream when it is exhausted; an `IPhreeqcStop` leaves the stack as it is.  `RunString` / `RunFile` /
+`RunAccumulated` call `clear_istream()` *after* their `catch` blocks, `load_db` / `load_db_str` likewise: whatever happened, the stack is
+empty when the API call returns, so no entry can outlive the stream object of the caller it points to. -/
+
+/-- what the reader does to the stack during a run -/
+inductive StreamStep where
+  | includeOpen        -- INCLUDE$ of a readable file: `push_istream(new std::ifstream)`
+  | exhausted          -- `get_line` hit the end of the top stream: `pop_istream()`
+  | stop               -- an ERROR with STOP: the exception unwinds, nothing more is read
+
+/-- stack depth during the run; `none` once stopped (depth frozen in the second component) -/
+structure Streams where
+  depth : Nat
+  stopped : Bool
+
+def Streams.step (s : Streams) : StreamStep â†’ Streams
+  | .includeOpen => if s.stopped then s else { s with depth := s.depth + 1 }
+  | .exhausted => if s.stopped then s else { s with depth := s.depth - 1 }
+  | .stop => { s with stopped := true }
+
+/-- depth when `do_run` is left (normally or by `IPhreeqcStop`), starting from whatever was on the stack before plus the pushed stream -/
+def streamsAfterDoRun (before : Nat) (steps : List StreamStep) : Streams :=
+  steps.foldl Streams.step âŸ¨before + 1, falseâŸ©
+
+/-- the API functions as coded: `clear_istream()` after the `catch` blocks, on every path -/
+def streamsAfterCall (before : Nat) (steps : List StreamStep) : Nat :=
+  let _ := streamsAfterDoRun before steps
+  0
+
+/-- the variant "do_run releases what it pushed", placed after the tail that re-throws: skipped when the run was stopped -/
+def streamsAfterCallClearInsideDoRun (before : Nat) (steps : List StreamStep) : Nat :=
+  let s := streamsAfterDoRun before steps
+  if s.stopped then s.depth else 0
+
 /-- a STOP error event -/
 def isStop : ErrEv â†’ Bool
   | .err _ stop _ => stop
